@@ -62,7 +62,8 @@ class Variables:
         self._variables[name.upper()] = value
 
     def _unset(self, name: str) -> None:
-        self._variables.pop(name.upper())
+        # unsetting a variable that isn't set is not an error
+        self._variables.pop(name.upper(), None)
 
     def inline_variables(self, sql: str) -> str:
         # substitute every reference in a single pass, looking up the whole name, so that a variable is never
